@@ -184,7 +184,7 @@ fn minimise(case: &Case, oracle: &str) -> Case {
 }
 
 pub fn run_layer_b(property: &str, seed: u64, tier: &str, ev: &mut Evidence) -> Vec<Violation> {
-    let n = if tier == "thorough" { 40_000usize } else { 1200 };
+    let n = if tier == "thorough" { 120_000usize } else { 1200 };
     let corpus: Vec<ProgSpec> = work::corpus_specs().into_iter().filter(|(_, s)| s.source().is_some()).map(|(_, s)| s).collect();
     let outs: Vec<(Case, Result<Option<Obs>, (String, String)>)> = par_map(n, |i| {
         let mut rng = Rng::for_case(seed, property, ENGINE, i as u64);
